@@ -125,7 +125,7 @@ class Lower:
             return self.typemap[t]
         if re.search(r'::\*$', t):
             return 'size_t'          # pointer to data member: an offset
-        m = re.match(r'^(.*?)\s*\(&&?\)\[\d*\]$', t)
+        m = re.match(r'^(.*?)\s*\(&&?\)\[\d*\]$', t) or re.match(r'^(.*?)\s*&\[\d*\]$', t)
         if m:                        # reference to array: lowered as pointer to the first element
             return self._ctype(m.group(1), allow_opaque) + ' *'
         m = re.match(r'^(.*?)\s*(\*|&&|&)$', t)
@@ -1016,6 +1016,8 @@ class Lower:
                 if isref:
                     x = '(*%s)' % x
                 return x
+        if os.environ.get('VS_DEBUG_KEYS'):
+            sys.stderr.write('operator stub key candidates: %r\n' % ['%s|%s' % (opname, ','.join(ots)), '%s|%s' % (opname, ots[0])])
         x = self.default_call((self.ast.qname(tgt) if tgt is not None else 'std::' + opname) + '|' + ots[0], n, ins[1:], sig=self.qt(r))
         if x is not None:
             return x
@@ -1073,6 +1075,9 @@ class Lower:
             argl.append(x)
         return self.emit_call(st, argl, n)
     e_CXXTemporaryObjectExpr = e_CXXConstructExpr
+
+    def has_lowered_ctor(self, recq):
+        return any(i['decl'].get('kind') == 'CXXConstructorDecl' and '::'.join(i['q'].split('::')[:-1]) in (recq, recq.split('<')[0]) for i in self.fn_info.values())
 
     def is_copy_sig(self, ctort):
         """constructor type with exactly one parameter of reference type"""
@@ -1472,6 +1477,13 @@ class Lower:
             ctort = core.get('ctorType', {}).get('qualType', '')
             iscopy = len(self.inner(core)) == 1 and self.is_copy_sig(ctort) and \
                 strip_ptr(norm_type(self.param_types_from_sig(ctort)[0])).split('::')[-1] == rec.split('::')[-1]
+            if r and not iscopy and not self.inner(core) and not self.has_lowered_ctor(r):
+                # implicit default constructor: members get their in-class initialisers / value-initialisation from the layout
+                self.need_defaults.add(r)
+                pre = self.flush_pre(ind)
+                if ct in self.guarded:
+                    self.scopes[-1].append((nm, ct))
+                return pre + (pad + '%s %s;\n' % (ct, nm) if not hoist else '') + pad + 'vs_default_%s(&%s);\n' % (self.mangle(r), nm)
             if r and not iscopy:
                 cname, cd = self.ctor_for(r, ctort)
                 argl = ['&' + nm] + self.args(cd, self.inner(core))
